@@ -100,6 +100,14 @@ structure Cfg where
   non-blocking send (select/default): it succeeds only if the loop is already blocked in the receive.
   Selected by the regenerated fact `Generated.C08.wakeSendBlocking`. -/
   wake : Bool
+  /-- the TOKEN shape of the suspend / wake-up handshake (candidate repair `fixes/C08-suspend-token.patch`):
+  `r.suspend` has capacity 1, the handler leaves (at most) one token on EVERY NodeOnline with a non-blocking
+  send and does not touch the flag, the loop clears `isSuspend` after its receive. `true` overrides `wake`.
+  Selected by the regenerated fact `Generated.C08.suspendChanBuffered` (`Tie.wake_shape` pins the rest of the
+  shape: handler conditions, kind of send, the loop's program in the offline branch). A stale token is not
+  part of the state: it makes the loop go once more round IsReady's offline branch (receive, clear, liveness
+  test, mark, block) inside the same atomic event, with the same final state. -/
+  tok : Bool := false
   deriving Repr, DecidableEq
 
 /-- image of the leader partition directory (queue + both followers' groups) -/
@@ -413,8 +421,9 @@ def peerEv (cfg : Cfg) (s : St) : Ev → St × Out
       -- IsReady: GetLiveNode fails, isSuspend.CompareAndSwap(false, true), state := failure ... (window) ...
       let s := { s with chan := .failure, susp := true }
       -- ... the follower comes online: handleNodeStateChangeEvent's CAS(true, false) succeeds, then the send
+      -- (token shape: the handler leaves a token, the loop's receive takes it and the LOOP clears the flag)
       let s := { s with live := true, susp := false }
-      if cfg.wake then
+      if cfg.tok || cfg.wake then
         -- blocking send: the handler waits; the loop's `<-r.suspend` takes the token and IsReady runs again
         replicaStep cfg s f
       else
@@ -426,7 +435,12 @@ def peerEv (cfg : Cfg) (s : St) : Ev → St × Out
       -- IsReady: GetLiveNode fails ... (window) ... stateManager.onNodeStartup: the node is live again, the
       -- handler's `isSuspend.CompareAndSwap(true, false)` FAILS (the flag is still false): it does nothing ...
       -- ... the loop goes on: CAS(false, true), state := failure, `<-r.suspend` — blocked although the follower is live
-      ({ s with live := true, chan := .failure, susp := true, parked := true }, .parked)
+      if cfg.tok then
+        -- token shape: the handler has left a token; the loop marks itself, its receive takes the token at once,
+        -- it clears the flag and IsReady runs again — the follower is live: the handshake
+        replicaStep cfg { s with live := true, chan := .failure, susp := false } f
+      else
+        ({ s with live := true, chan := .failure, susp := true, parked := true }, .parked)
     else onlineEv cfg s f
   | _ => (s, .idle)
 
